@@ -1,11 +1,11 @@
 /-
 C05 — the generic theorems of Props/C05.lean instantiated on the REGENERATED
-register table (reg/x86.go via the compiled package) and constant table
-(operand/zconst.go).  Re-checked by the kernel whenever the tables change.
+register table (reg/x86.go via the compiled package) and on the constant texts
+tabulated by running the real `Asm()` methods (Gen/C05ConstSamples).  Re-checked by the kernel whenever the tables change.
 -/
 import AvoVerif.Props.C05
 import AvoVerif.Gen.Regs
-import AvoVerif.Gen.Consts
+import AvoVerif.Gen.C05ConstSamples
 namespace Avo.AsmText
 
 /-- the `Asm()` names of all physical and pseudo registers -/
@@ -25,13 +25,19 @@ theorem line_roundtrip_regs (ops : List Op) (hne : ops ≠ []) (hwf : ∀ op ∈
     (splitOps (joinOps (ops.map asm)) []).map (parseOp regNames) = ops.map (fun op => some (canon op)) :=
   line_roundtrip regNames regNames_ok ops hne hwf
 
-/-- The format verbs of the eight integer constant types are the ones the renderer
-`immAsm` models (`$%+d` signed; `$%#0Nx` with N = 2·bytes unsigned). -/
-theorem const_verbs :
-    (Avo.Gen.constTable.filter (fun r => ["I8", "I16", "I32", "I64", "U8", "U16", "U32", "U64"].contains r.1)).map
-        (fun r => (r.1, r.2.2.1)) =
-      [("I16", "$%+d"), ("I32", "$%+d"), ("I64", "$%+d"), ("I8", "$%+d"),
-       ("U16", "$%#04x"), ("U32", "$%#08x"), ("U64", "$%#016x"), ("U8", "$%#02x")] := by decide +kernel
+/-- Every tabulated constant text of the implementation (the table is produced by RUNNING
+`operand.U8 … I64.Asm()` on boundary values of each type: 0, ±1, the decimal/hex digit boundaries, 2^(n-1)-1,
+2^(n-1), 2^n-1, -2^(n-1)) is read by the assembler as the constant given, i.e. exactly as the model's rendering
+`immAsm` is (`readImm_asm`); every tabulated value is in range of its type.  Stated on the VALUE read back, not on
+the spelling: a respelling of the same constant (`$5` for `$0x05`) keeps it true. -/
+theorem const_asm_samples :
+    ∀ s ∈ Avo.Gen.constAsmSamples, readImm s.2.2.toList = some s.2.1 ∧ readImm s.2.2.toList = readImm (immAsm s.1 s.2.1) ∧
+      InRange s.1 s.2.1 := by decide +kernel
+
+/-- the table covers all eight constant types (non-vacuity of `const_asm_samples`) -/
+theorem const_asm_samples_cover :
+    [ImmTy.u8, .u16, .u32, .u64, .i8, .i16, .i32, .i64].all (fun t => (Avo.Gen.constAsmSamples.filter (·.1 == t)).length ≥ 5) = true := by
+  decide +kernel
 
 /-- the register table has the rows the hardware comparison relies on (name ↦ kind, index, size) for a few anchors -/
 theorem reg_anchors :
